@@ -1,7 +1,7 @@
 #!/usr/bin/env python3
 # runs every stored seeded change against the check of its property; updates seeded/<name>/meta.json
 import json, os, subprocess, sys, glob
-root='/verif'
+root=os.path.dirname(os.path.dirname(os.path.abspath(__file__)))
 claimed={c['property_id'] for c in json.load(open(root+'/MANIFEST.json'))['checks']}
 only=sys.argv[1:] 
 for d in sorted(glob.glob(root+'/seeded/*')):
